@@ -282,6 +282,18 @@ fn fit_ols_raw(x: Array2<f64>, y: Array1<f64>, icpt: bool, q: Array2<f64>) -> Re
     }) { Ok(r) => r, Err(p) => Err(format!("PANIC: {}", p)) }
 }
 
+/// LinearRegression instantiated at f32; data are f32 values (exactly widened to f64 for Coq)
+fn fit_ols32(d: &Data, icpt: bool, q: &Array2<f64>) -> Result<FitOut, String> {
+    let (x, y, q2) = (d.xa().mapv(|v| v as f32), d.ya1().mapv(|v| v as f32), q.mapv(|v| v as f32));
+    match guarded(move || {
+        let ds = Dataset::new(x, y);
+        let lr = if icpt { LinearRegression::new() } else { LinearRegression::new().with_intercept(false) };
+        let m = lr.fit(&ds).map_err(|e| format!("{}", e))?;
+        let pred = m.predict(&q2);
+        Ok(FitOut { w: m.params().iter().map(|v| vec![*v as f64]).collect(), b: vec![m.intercept() as f64], gap: 0.0, steps: 0, pred: pred.iter().map(|v| vec![*v as f64]).collect() })
+    }) { Ok(r) => r, Err(p) => Err(format!("PANIC: {}", p)) }
+}
+
 fn gen_queries(r: &mut Sm64, d: &Data) -> Vec<Vec<f64>> {
     let mut q = vec![d.x[r.below(d.n() as u64) as usize].clone()];
     q.push((0..d.p()).map(|_| r.range(-12, 12) as f64 * 0.25).collect());
@@ -306,10 +318,12 @@ const K_ENET: u64 = 0;
 const K_MTL: u64 = 1;
 const K_OLS: u64 = 2;
 const K_ENET32: u64 = 3; // elastic net at f32 (shipped to Coq as kind 0 with flag bit 3)
+const K_OLS32: u64 = 4; // LinearRegression at f32 (shipped to Coq as kind 2 with flag bit 3)
+fn is_ols(kind: u64) -> bool { kind == K_OLS || kind == K_OLS32 }
 
 fn case_term(id: u64, kind: u64, replay: bool, fixed_point: bool, d: &Data, h: &Hp, f: &FitOut, q: &[Vec<f64>]) -> String {
-    let f32run = kind == K_ENET32;
-    let kind = if f32run { K_ENET } else { kind };
+    let f32run = kind == K_ENET32 || kind == K_OLS32;
+    let kind = if kind == K_ENET32 { K_ENET } else if kind == K_OLS32 { K_OLS } else { kind };
     let flags = (replay as u64) | ((d.col_contig() as u64) << 1) | ((fixed_point as u64) << 2) | ((f32run as u64) << 3);
     // hyper-parameters as the f32 values the estimator sees
     let hh = if f32run { Hp { pen: h.pen as f32 as f64, l1r: h.l1r as f32 as f64, tol: h.tol as f32 as f64, ..h.clone() } } else { h.clone() };
@@ -419,13 +433,13 @@ impl Ctx {
             format!("fam_{}", d.fam),
         ];
         // a non-zero feature column whose squared norm is <= f64::EPSILON (the solvers skip it: approx::abs_diff_eq!(norm, 0))
-        if kind != K_OLS && (0..d.p()).any(|j| { let q: f64 = d.x.iter().map(|row| row[j] * row[j]).sum(); q > 0.0 && q <= f64::EPSILON }) {
+        if !is_ols(kind) && (0..d.p()).any(|j| { let q: f64 = d.x.iter().map(|row| row[j] * row[j]).sum(); q > 0.0 && q <= f64::EPSILON }) {
             t.push("tiny_column".into());
         }
         // regression class of finding F52 (repaired): started from w = 0, r = y, the coordinate minimisers
         // soft(x_j.y, l1) / (|x_j|^2 + l2) of ALL non-skipped features are <= EPSILON in magnitude (and not all 0) -
         // coefficients the pre-repair guard `abs_diff_ne!(w[j], 0)` took for zero
-        if kind != K_OLS && band_start(kind, d, h) { t.push("coef_band".into()); }
+        if !is_ols(kind) && band_start(kind, d, h) { t.push("coef_band".into()); }
         for e in extra { t.push(e.to_string()); }
         t
     }
@@ -445,14 +459,14 @@ impl Ctx {
         self.id += 1;
         let qa = arr2(q, d.p());
         let qa2 = qa.clone();
-        let res = match kind { K_ENET => fit_enet(d, h, &qa), K_ENET32 => fit_enet32(d, h, &qa), K_MTL => fit_mtl(d, h, &qa), _ => fit_ols_raw(d.xa(), d.ya1(), h.icpt, qa) };
-        let kname = match kind { K_ENET => "enet", K_ENET32 => "enet_f32", K_MTL => "mtl", _ => "ols" };
+        let res = match kind { K_ENET => fit_enet(d, h, &qa), K_ENET32 => fit_enet32(d, h, &qa), K_MTL => fit_mtl(d, h, &qa), K_OLS32 => fit_ols32(d, h.icpt, &qa), _ => fit_ols_raw(d.xa(), d.ya1(), h.icpt, qa) };
+        let kname = match kind { K_ENET => "enet", K_ENET32 => "enet_f32", K_MTL => "mtl", K_OLS32 => "ols_f32", _ => "ols" };
         self.out.bump(&format!("stream_{}", stream));
         self.out.bump(&format!("kind_{}", kname));
         self.out.bump(&format!("family_{}", d.fam));
         self.out.bump(&format!("{}_{}", kname, if h.icpt { "intercept" } else { "nointercept" }));
         self.out.bump(&format!("n_{}", if d.n() < 8 { "lt8" } else if d.n() < 16 { "8to15" } else { "ge16" }));
-        if kind != K_OLS {
+        if !is_ols(kind) {
             self.out.bump(&format!("penalty_{:e}", h.pen));
             self.out.bump(&format!("l1ratio_{}", h.l1r));
         }
@@ -468,16 +482,16 @@ impl Ctx {
                 None
             }
             Ok(f) => {
-                let converged = kind == K_OLS || f.steps < h.maxit;
+                let converged = is_ols(kind) || f.steps < h.maxit;
                 // binary32 arithmetic is emulated in Coq (SpecFloat, about 60 us per operation): the replay is bounded by
                 // the number of coefficient updates times n (the stream keeps n <= 22, p <= 5, budget <= 1000 sweeps, so
                 // the quick-tier bound already covers every run of the stream, the 1000-sweep ridge runs included)
-                let replay = if kind == K_ENET32 { (f.steps as usize) * d.n() * d.p() <= self.replay_cap32 } else { kind != K_OLS && f.steps <= self.replay_cap };
+                let replay = if kind == K_ENET32 { (f.steps as usize) * d.n() * d.p() <= self.replay_cap32 } else { !is_ols(kind) && f.steps <= self.replay_cap };
                 // a run that used its whole budget may still sit on a fixed point of the sweep: two more sweeps
                 // leave every coefficient bit-identical (this is how ridge and penalty-0 fits end: their duality
                 // gap degenerates to the primal objective and never falls under the tolerance)
                 let mut fixed_point = false;
-                if kind != K_OLS && !converged && h.maxit >= 100 && all_finite(&f) {
+                if !is_ols(kind) && !converged && h.maxit >= 100 && all_finite(&f) {
                     let mut h2 = h.clone();
                     h2.maxit = h.maxit + 2;
                     let again = if kind == K_ENET { fit_enet(d, &h2, &qa2) } else if kind == K_ENET32 { fit_enet32(d, &h2, &qa2) } else { fit_mtl(d, &h2, &qa2) };
@@ -487,8 +501,8 @@ impl Ctx {
                 }
                 let mut extra: Vec<&str> = vec![];
                 extra.push(if converged { "converged" } else if fixed_point { "fixed_point" } else { "budget_exhausted" });
-                if kind != K_OLS && h.pen * h.l1r == 0.0 { extra.push("l1_zero"); }
-                if kind != K_OLS && kind != K_ENET32 && all_finite(&f) && (converged || fixed_point) {
+                if !is_ols(kind) && h.pen * h.l1r == 0.0 { extra.push("l1_zero"); }
+                if !is_ols(kind) && kind != K_ENET32 && all_finite(&f) && (converged || fixed_point) {
                     // slack actually consumed (approximate, binary64): squared first-order residual in units of
                     // tol*L_j*|y|^2 (the checker allows kappa = 2) resp. residual in units of the rounding floor scale
                     // (the checker allows 2^-36 = 1.5e-11)
@@ -500,7 +514,7 @@ impl Ctx {
                     }
                 }
                 if !all_finite(&f) { extra.push("non_finite_output"); }
-                if kind != K_OLS {
+                if !is_ols(kind) {
                     self.out.bump(if converged { "solver_converged" } else if fixed_point { "solver_budget_exhausted_at_fixed_point" } else { "solver_budget_exhausted_not_converged" });
                     self.out.bump(if replay { "replayed_bit_exactly" } else { "oracle_only_too_many_sweeps" });
                     if kind == K_ENET32 {
@@ -731,6 +745,45 @@ fn main() {
         }
     }
 
+    // ---- stream I: ordinary least squares on ill-conditioned but full-column-rank designs ("whatever the offsets
+    //      and scales of the features").  Columns are independent gaussian / uniform samples, so the design
+    //      [X 1] has full column rank; the condition number of the column-equilibrated design is about
+    //      offset/spread (stream a, at most 1e9) resp. that of a random unit-scale matrix (stream b: the scales
+    //      10^-6..10^6 only enter the un-equilibrated condition number, up to 1e12) ----
+    let ni = if thorough { 360 } else { 72 };
+    for i in 0..ni {
+        let mut r = rng.fork();
+        let p = 1 + r.below(4) as usize;
+        let n = p + 3 + r.below((maxn - p - 3) as u64) as usize;
+        let variant = i % 3; // 0: offsets (f64), 1: scales (f64), 2: offsets (f32)
+        let f32v = variant == 2;
+        let mut cols: Vec<Vec<f64>> = vec![];
+        let mut scale = vec![1.0f64; p];
+        let common = *r.pick(&[1e3, 1e4, 1e5, 1e6, 1e7, 1e8, 1e9]);
+        for j in 0..p {
+            let unif = r.chance(0.5);
+            let (off, sc) = match variant {
+                0 => (if r.chance(0.5) { common } else { *r.pick(&[1e3, 1e4, 1e5, 1e6, 1e7, 1e8, 1e9, -1e6, -1e9]) }, 0.5 + 1.5 * r.unit()),
+                1 => (*r.pick(&[0.0, 0.0, 0.5, -2.0]), (10.0f64).powi(r.range(-6, 6) as i32)),
+                _ => (*r.pick(&[1e2, 1e3, 3e3, -2e3, 1013.0, 1990.0]), 0.5 + 1.5 * r.unit()),
+            };
+            scale[j] = sc;
+            cols.push((0..n).map(|_| { let u = if unif { 2.0 * r.unit() - 1.0 } else { r.gauss() }; let v = sc * (off + u); if f32v { (v as f32) as f64 } else { v } }).collect());
+        }
+        let w: Vec<f64> = (0..p).map(|j| (r.range(-8, 8) as f64) * 0.5 / scale[j]).collect();
+        let b0 = *r.pick(&[0.0, 5.0, -20.0, 0.75]);
+        let noise = *r.pick(&[0.0, 0.1, 1.0, 1.0]);
+        let y: Vec<Vec<f64>> = (0..n).map(|k| { let v = b0 + (0..p).map(|j| cols[j][k] * w[j]).sum::<f64>() + noise * r.gauss(); vec![if f32v { (v as f32) as f64 } else { v }] }).collect();
+        let x: Vec<Vec<f64>> = (0..n).map(|k| (0..p).map(|j| cols[j][k]).collect()).collect();
+        let d = Data { x, y, fam: 10 + variant as u64, forder: r.chance(0.15) };
+        // offsets make the design ill-conditioned only together with the constant column
+        let icpt = if variant == 1 { r.chance(0.6) } else { r.chance(0.9) };
+        let h = Hp { pen: 0.0, l1r: 0.0, icpt, tol: 0.0, maxit: 0, how: 0 };
+        let mut q = gen_queries(&mut r, &d);
+        if f32v { for row in q.iter_mut() { for v in row.iter_mut() { *v = (*v as f32) as f64; } } }
+        cx.emit_fit(if f32v { K_OLS32 } else { K_OLS }, &d, &h, &q, ["ols_offset", "ols_scales", "ols_offset_f32"][variant], true);
+    }
+
     // ---- stream E: hyper-parameter guard of the elastic-net builders (error paths) ----
     {
         let d = Data { x: vec![vec![1.0], vec![2.0], vec![4.0]], y: vec![vec![1.0], vec![0.0], vec![2.0]], fam: 9, forder: false };
@@ -770,5 +823,5 @@ fn main() {
         }
     }
 
-    cx.out.finish("regression data n > p from 7 families (0 exactly centred dyadic, 1 offset, 2 badly scaled 1e-3..1e3, 3 zero/constant column, 4 collinear with regularisation, 5 float-standardised, 6 plain gaussian, 9 integer lattice) x {elastic net, multi-task 1..3 targets, OLS} x penalty {0,1e-3,0.1,1,10} x l1_ratio {0,0.3,0.5,0.9,1} x intercept x tolerance/budget; C and F memory order; a case is non-trivial when some fitted coefficient is non-zero; distinct = distinct (data, hyper-parameters, estimator) hashes");
+    cx.out.finish("regression data n > p from 10 families (0 exactly centred dyadic, 1 offset, 2 badly scaled 1e-3..1e3, 3 zero/constant column, 4 collinear with regularisation, 5 float-standardised, 6 plain gaussian, 9 integer lattice; OLS only: 10 offsets 1e3..1e9 on unit spread, 11 column scales 1e-6..1e6, 12 f32 offsets 1e2..3e3 - full column rank, n >= p + 3) x {elastic net, multi-task 1..3 targets, OLS (f64 and f32)} x penalty {0,1e-3,0.1,1,10} x l1_ratio {0,0.3,0.5,0.9,1} x intercept x tolerance/budget; C and F memory order; a case is non-trivial when some fitted coefficient is non-zero; distinct = distinct (data, hyper-parameters, estimator) hashes");
 }
